@@ -43,7 +43,6 @@ Fixpoint refs_for (v : version) (s : stmt) : list name * list name :=
     end
   | SFor _ _ b => refs_for v b
   | SRef f _ => ([f], [])
-  | SRefArr _ _ _ fidx _ _ => ([fidx], [])
   | SStrRef _ findex _ => if Z.ltb (vfile v) V20_1_0_3 then ([], []) else ([], [findex])
   | _ => ([], [])
   end.
@@ -51,7 +50,7 @@ Fixpoint refs_for (v : version) (s : stmt) : list name * list name :=
 Definition names_of (p : list name * list name) : list name := fst p ++ snd p.
 
 (* ---- the log only grows, and only by keys of collected names ---- *)
-Definition key_named (names : list name) (k : positive) : Prop :=
+Definition key_named (names : list name) (k : skey) : Prop :=
   exists f i, In f names /\ k = enc_key f i.
 
 Definition log_ext (names : list name) (st st' : state) : Prop :=
@@ -89,9 +88,10 @@ Section Logged.
 
   Lemma reflog_sync_int st k p n : reflog (sync_int m st k p n) = reflog st.
   Proof.
-    unfold sync_int. destruct m; [|reflexivity].
-    pose proof (reflog_read st n) as H. destruct (read st n) as [got st1]. cbn [snd] in H.
-    destruct (length got =? 0)%nat; [exact H|]. exact H.
+    unfold sync_int. destruct m.
+    - pose proof (reflog_read st n) as H. destruct (read st n) as [got st1]. cbn [snd] in H.
+      destruct (length got =? 0)%nat; [exact H|]. exact H.
+    - destruct (n =? prim_width p); reflexivity.
   Qed.
 
   Lemma reflog_sync_blob st k n : reflog (sync_blob m st k n) = reflog st.
@@ -244,19 +244,9 @@ Section Logged.
       exists [key_of st f idx]. split.
       + rewrite reflog_sync_int. reflexivity.
       + constructor; [|constructor]. exists f, (eval_idx st idx). split; [left; reflexivity|reflexivity].
-    - (* SRefArr *)
-      cbv zeta in H.
-      set (i := eval_idx st idx) in *.
-      set (st0 := match m with Wr => clean_refs st fsize fkeep frefs fidx i | Rd => st end) in *.
-      assert (H0 : reflog st0 = reflog st) by (unfold st0; destruct m; [reflexivity|apply reflog_clean]).
-      match type of H with iter_loop ?body 0 ?n ?st2 = _ =>
-        assert (Hl : log_ext [fidx] st2 st') end.
-      { eapply iter_loop_log; [|exact H].
-        intros s s' z Hs. inversion Hs; subst.
-          eexists [_]. split; [rewrite reflog_sync_int; reflexivity|].
-          constructor; [|constructor]. eexists fidx, _. split; [left; reflexivity|reflexivity]. }
-      destruct Hl as (new & Hn & Fn). exists new. split; [|exact Fn].
-      rewrite Hn. cbn [reflog set_size]. rewrite reflog_sync_int. rewrite H0. reflexivity.
+    - (* SRefArrHead *)
+      cbv zeta in H. inversion H; subst. apply log_ext_same.
+      cbn [reflog set_size]. rewrite reflog_sync_int. destruct m; [reflexivity|apply reflog_clean].
     - (* SCleanRefs *) cbv zeta in H. inversion H; subst. apply log_ext_same. apply reflog_clean.
     - (* SVecSize *)
       cbv zeta in H. apply log_ext_same. destruct m.
